@@ -131,6 +131,9 @@ def gen(read):
         # the innermost select containing the write, other than the loop's main select (which contains the whole arm)
         if sm.start() < wi.start() < e and "stream_reader" not in inner:
             raced = re.search(r"close_rx\s*\.\s*recv\s*\(", inner) is not None and re.search(r"\bcancelled\b", inner) is not None
+    # 6. the batch's buffers go back to the pool only after the vectored write of that batch has been awaited
+    wa = re.search(r"Self::write_iovs\s*\([^;]*?\)\s*\.\s*await", body, flags=re.S)
+    released_after = bool(wa) and rel.start() > wa.end()
     bl = lambda x: "true" if x else "false"
     return "\n".join([
         "(* GENERATED by translator/headroom.py from /repo/crates/common/src/conn.rs — do not edit *)",
@@ -148,7 +151,9 @@ def gen(read):
         "(* awaited acquisitions outside the batch-growing loop: the read buffer, the first buffer of a batch, transient error frames *)",
         "Definition single_buffer_sites : N := %d%%N." % n_sites,
         "(* the batch write is awaited inside a select! that also polls the close channel and the shutdown token *)",
-        "Definition write_raced_with_close : bool := %s." % bl(raced), ""])
+        "Definition write_raced_with_close : bool := %s." % bl(raced),
+        "(* release_buffers of the batch comes after the awaited vectored write of that batch *)",
+        "Definition batch_released_after_write : bool := %s." % bl(released_after), ""])
 
 
 def fallback(msg):
@@ -159,7 +164,7 @@ def fallback(msg):
         "Definition pool_per_connection : N := 0%N.", "Definition pool_per_iovs : N := 0%N.", "Definition pool_constant : N := 0%N.",
         "Definition permits_per_iovs : N := 0%N.", "Definition extras_guarded : bool := false.",
         "Definition permits_kept_until_release : bool := false.", "Definition single_buffer_sites : N := 0%N.",
-        "Definition write_raced_with_close : bool := false.", ""])
+        "Definition write_raced_with_close : bool := false.", "Definition batch_released_after_write : bool := false.", ""])
 
 
 if __name__ == "__main__":
